@@ -161,6 +161,11 @@ def common_obligations(ctx, repo, pid):
     through an unsound memo (CACHE rule) or through in-place modification of a shared result (ALIAS rule)"""
     from .rules.cache import check_caches
     mods = anchored_modules(pid, repo)
+    try:
+        extra = getattr(importlib.import_module(f"sa.props.{pid}"), "EXTRA_MODULES", [])
+    except Exception:
+        extra = []
+    mods = mods + [m for m in extra if m in repo.modules and m not in mods]
     if mods:
         check_caches(ctx, repo, pid, mods)
         # ALIAS rule: objects kept in memo containers / handed out by reference must not be modified in place by any caller
